@@ -200,6 +200,13 @@ func validateEncryptedPayload(encryptedInnerData []byte) error {
 			Errorf("encrypted inner data size %d < minimum %d",
 				len(encryptedInnerData), ENCRYPTED_LEASESET_MIN_ENCRYPTED_SIZE)
 	}
+	// The length is carried in a 2-byte field: anything longer cannot be declared on the wire.
+	if len(encryptedInnerData) > 0xFFFF {
+		return oops.Code("encrypted_data_too_long").
+			With("size", len(encryptedInnerData)).
+			With("maximum", 0xFFFF).
+			Errorf("encrypted inner data size %d exceeds the 16-bit length field", len(encryptedInnerData))
+	}
 	return nil
 }
 
